@@ -7,6 +7,7 @@ import SqlModel.Pipeline
 import SqlProofs.SplitNonWs
 import SqlProofs.GroupTotal
 import SqlProofs.DelimChild.Filters
+import SqlProofs.DelimChild.Reindent.Reindent
 /-!
 # C07 — totality: any text and any valid option set gives a result or SQLParseError
 
@@ -75,5 +76,11 @@ theorem stripws_domain_of_delimSafe : type_of% @Sql.stripws_domain_of_delimSafe 
 theorem strip_whitespace_total_of_delimSafe : type_of% @Sql.stripWhitespace_total_of_delimSafe := @Sql.stripWhitespace_total_of_delimSafe
 theorem aligned_domain_of_delimSafe : type_of% @Sql.aligned_domain_of_delimSafe := @Sql.aligned_domain_of_delimSafe
 theorem aligned_total_of_delimSafe : type_of% @Sql.aligned_total_of_delimSafe := @Sql.aligned_total_of_delimSafe
+/-- the third filter: `reindent`.  `ReindentSafe` = `DelimSafe` + every token value non-empty and "," only as Punctuation + no Case whose first
+child after CASE is a CASE/THEN/ELSE/END keyword (decided on the tree after the matching passes); on lexer-produced statements it coincided with
+`DelimSafe` in the differential run (driver command `reindentsafe`, 23 050 statements in the domain) -/
+theorem reindent_domain_of_reindentSafe : type_of% @Sql.reindent_domain_of_reindentSafe := @Sql.reindent_domain_of_reindentSafe
+theorem reindent_total_of_reindentSafe : type_of% @Sql.reindent_total_of_reindentSafe := @Sql.reindent_total_of_reindentSafe
+theorem delimSafe_of_reindentSafe : type_of% @Sql.delimSafe_of_reindentSafe := @Sql.delimSafe_of_reindentSafe
 
 end Sql.C07
